@@ -480,7 +480,7 @@ CHECKS = {
                  "integers, -0, max/min/denormal floats, NaN and infinities in hash vectors, nil vs empty slices and maps, nil pointers, zero and year-9999 times) on a copy of the "
                  "entity last fetched (so two Saves without a fetch in between are based on the same version), on the very object a previous Save advanced, or on a fresh "
                  "entity with version 0; 0-3 ghost writers (content change + version bump of 1-2, DEL, SCRIPT FLUSH); reply cuts; in a third of the plans 1-2 connection faults "
-                 "(reset, EOF, reset after execution, EOF mid-reply, write error, stall, node restart). The save scripts run for real in fakeredis+lualite; each execution is "
+                 "(reset, EOF, reset after execution, EOF mid-reply, 30 s stall, node restart with lost script cache and refused dials) on connections that carry user traffic. The save scripts run for real in fakeredis+lualite; each execution is "
                  "attributed to its Save call by a unique tag. Reference: a versioned register per key advanced in the server's execution order. Oracle: (a) an execution on an "
                  "existing key succeeds iff stored version == version of the entity passed to Save; Save returns nil iff its execution succeeded and ErrVersionMismatch iff it was "
                  "refused; at most one Save returns nil per stored version instance; (b) a successful execution answers base+1, the entity passed to Save carries base+1 "
@@ -489,9 +489,10 @@ CHECKS = {
                  "state, and once every reply and push is delivered and nothing runs both return the latest state; "
                  "non-trivial = at least one stored version instance had two or more Save executions against it; distinct = distinct event-log hash"),
         "parts": [
-            {"module": "om", "scenario": "om", "variant": "json", "quick": 9000, "thorough": 600000},
-            {"module": "om", "scenario": "om", "variant": "hash", "quick": 9000, "thorough": 600000},
-            {"module": "om", "scenario": "om", "variant": "hash,clearptr", "quick": 600, "thorough": 20000},
+            {"module": "om", "scenario": "om", "variant": "json", "quick": 6000, "thorough": 300000},
+            {"module": "om", "scenario": "om", "variant": "hash", "quick": 6000, "thorough": 300000},
+            {"module": "om", "scenario": "om", "variant": "hash,clearptr", "quick": 400, "thorough": 15000},
+            {"module": "om", "scenario": "om", "variant": "hash,alias", "quick": 400, "thorough": 15000},
         ],
         "expected_probes": ["contended-version", "version-mismatch-returned", "chained-save-on-advanced-version", "noscript-fallback", "script-flush-ghost",
                             "ghost-bumped-version", "ghost-deleted-entity", "cache-hit-served", "cached-read-older-than-current", "read-saw-a-workload-save",
@@ -507,7 +508,9 @@ CHECKS = {
             "versions stay below 1e14 in the registered parts: Lua formats larger numbers as 1e+14 (variant bigver demonstrates what happens then)",
             "FetchCache freshness while writes are in flight is C06's subject; here a cached read may be any stored state, and must be the latest one only at rest",
             "SaveMulti, verless entities, expiry that fires during the run and RediSearch calls are not exercised; ghost writers only ever increase the version (no ABA)",
-            "part 3 lets pointer fields go from a value back to nil; parts 1-2 keep the nil-ness of each top-level pointer field fixed per run so that the finding of part 3 does not mask anything else",
+            "part 3 (hash,clearptr) lets top-level pointer fields of a hash entity go from a value back to nil; the other parts keep the nil-ness of each such field fixed per run so that what part 3 shows (rule nil-pointer-field-kept-old-value) does not mask anything else",
+            "part 4 (hash,alias) adds callers that edit the byte slices of a fetched entity in place before building their next Save from a copy (call kind scribble); what it shows is reported under rule fetched-entity-shares-memory-with-cache",
+            "plans with connection faults run the clients on the flow-buffer queue, the others on the ring or the flow buffer; a connection is eligible for a fault once it has carried a user command; the clean-up loop of a dead pipe spins for real (bounded) before it polls in simulated time (rueidis.VerifCleanupSpinBudget); the default RetryDelay is replaced by a jitter-free one; the log hash covers set-up, workload and final reads but not client.Close - each of these removes a race inside rueidis' teardown paths that the Go runtime, not the scheduler, decides (see the comments in scen_om_test.go)",
         ],
     },
     "C41": {
